@@ -43,8 +43,8 @@ def main():
         res = {}
         try:
             if not os.path.exists(os.path.join(wt, "Cargo.lock")):
-            shutil.copy("/repo/Cargo.lock", os.path.join(wt, "Cargo.lock"))  # ignored by git, so a fresh worktree has none
-        rc, out = sh("git apply %s" % os.path.join(d, "patch.diff"), cwd=wt)
+                shutil.copy("/repo/Cargo.lock", os.path.join(wt, "Cargo.lock"))  # ignored by git, so a fresh worktree has none
+            rc, out = sh("git apply %s" % os.path.join(d, "patch.diff"), cwd=wt)
             if rc != 0:
                 rc, out = sh("patch -p1 --fuzz=3 --no-backup-if-mismatch < %s" % os.path.join(d, "patch.diff"), cwd=wt)
                 sh("find . -name '*.orig' -delete", cwd=wt)
